@@ -20,7 +20,7 @@ def crate_dir():
         open(path, 'w').write(text)
     put(os.path.join(d, 'src', 'main.rs'), open(os.path.join(VERIF, 'replay_runner', 'src', 'main.rs')).read())
     put(os.path.join(d, 'Cargo.toml'),
-        '[package]\nname = "replay_runner"\nversion = "0.0.0"\nedition = "2021"\n\n[dependencies]\npenne = { path = "%s" }\n\n[workspace]\n' % REPO)
+        '[package]\nname = "replay_runner"\nversion = "0.0.0"\nedition = "2021"\n\n[dependencies]\npenne = { path = "%s" }\nariadne = "0.6"\n\n[workspace]\n' % REPO)
     lock = os.path.join(REPO, 'Cargo.lock')
     return d
 
